@@ -259,6 +259,8 @@ pub struct World {
     /// for interned waker ids that are parent wakers: which one
     pub waker_parent: Vec<Option<usize>>,
     pub parent_wakers: usize,
+    /// parent waker k has been invoked at least once (same information as a `ParentWake{k}` in the log)
+    pub parent_woken: Vec<bool>,
     pub in_parent: bool,
     pub injected_panic: bool,
     pub garbage: Vec<String>,
@@ -321,7 +323,19 @@ impl World {
         self.log.push(e);
     }
     pub fn intern(&mut self, wk: &Waker) -> usize {
-        for (i, x) in self.wakers.iter().enumerate() {
+        self.intern_hint(wk, None)
+    }
+    /// `intern` with a guess (the id this waker had the last time). Ids are unique per `will_wake` class
+    /// (a waker is only added when no interned one `will_wake` it, and interned wakers are kept alive),
+    /// so neither the hint nor the search order changes the result; they only keep scenarios with
+    /// hundreds of children / polls linear.
+    pub fn intern_hint(&mut self, wk: &Waker, hint: Option<usize>) -> usize {
+        if let Some(h) = hint {
+            if h < self.wakers.len() && self.wakers[h].will_wake(wk) {
+                return h;
+            }
+        }
+        for (i, x) in self.wakers.iter().enumerate().rev() {
             if x.will_wake(wk) {
                 return i;
             }
@@ -347,7 +361,12 @@ impl World {
         self.children.len() - 1
     }
     pub fn new_val(&mut self, child: usize, tag: char) -> u32 {
-        let seq = self.vals.iter().filter(|v| v.child == child).count();
+        // number of values this child has produced so far
+        let seq = if child < self.children.len() {
+            self.children[child].produced.len()
+        } else {
+            self.vals.iter().filter(|v| v.child == child).count()
+        };
         self.vals.push(ValRec { child, seq, drops: 0, tag });
         let id = (self.vals.len() - 1) as u32;
         if child < self.children.len() {
@@ -373,12 +392,19 @@ impl World {
         self.children[idx].drops += 1;
         self.log.push(Ev::ChildDrop { c: idx });
     }
+    fn parent_wake(&mut self, k: usize) {
+        if let Some(f) = self.parent_woken.get_mut(k) {
+            *f = true;
+        }
+        self.ev(Ev::ParentWake { k });
+    }
     pub fn new_parent_waker(&mut self) -> (usize, Waker) {
         let k = self.parent_wakers;
         self.parent_wakers += 1;
         let wk = Waker::from(Arc::new(PW { k }));
         let wid = self.intern(&wk);
         self.waker_parent[wid] = Some(k);
+        self.parent_woken.push(false);
         (k, wk)
     }
 }
@@ -394,11 +420,11 @@ struct PW {
 impl Wake for PW {
     fn wake(self: Arc<Self>) {
         let k = self.k;
-        w(|w| w.ev(Ev::ParentWake { k }));
+        w(|w| w.parent_wake(k));
     }
     fn wake_by_ref(self: &Arc<Self>) {
         let k = self.k;
-        w(|w| w.ev(Ev::ParentWake { k }));
+        w(|w| w.parent_wake(k));
     }
 }
 
@@ -465,7 +491,8 @@ pub fn child_poll(idx: usize, cx: &mut Context<'_>) -> CRes {
             w.garbage.push(format!("poll of a child object that was never created (raw index {idx:#x})"));
             return (CRes::AfterDone, Act::Nothing);
         }
-        let wid = w.intern(&wk);
+        let hint = w.children[idx].polls.last().map(|p| p.wid);
+        let wid = w.intern_hint(&wk, hint);
         let t = w.now();
         let in_parent = w.in_parent;
         let j = w.children[idx].polls.len();
@@ -496,7 +523,7 @@ pub fn child_poll(idx: usize, cx: &mut Context<'_>) -> CRes {
                 let a = if s < w.children.len() && s != idx && !w.children[s].wakers.is_empty() {
                     let sj = w.children[s].wakers.len() - 1;
                     let swk = w.children[s].wakers[sj].clone();
-                    let swid = w.intern(&swk);
+                    let swid = w.intern_hint(&swk, w.children[s].polls.get(sj).map(|p| p.wid));
                     Act::WakeSib { sib: s, j: sj, wid: swid, wk: swk }
                 } else {
                     Act::Nothing
@@ -666,7 +693,8 @@ pub fn fire_latest(c: usize) -> bool {
         }
         let j = ch.wakers.len() - 1;
         let wk = ch.wakers[j].clone();
-        let wid = w.intern(&wk);
+        let hint = ch.polls.get(j).map(|p| p.wid);
+        let wid = w.intern_hint(&wk, hint);
         w.children[c].fired_latest_at_poll = Some(j);
         w.ev(Ev::Wake { c, j, wid, kind: WakeKind::Stored });
         Some(wk)
@@ -695,7 +723,8 @@ pub fn fire_stale(c: usize) -> bool {
             return None;
         }
         let wk = ch.wakers[0].clone();
-        let wid = w.intern(&wk);
+        let hint = ch.polls.first().map(|p| p.wid);
+        let wid = w.intern_hint(&wk, hint);
         w.ev(Ev::Wake { c, j: 0, wid, kind: WakeKind::Stale });
         Some(wk)
     });
